@@ -104,7 +104,7 @@ func insertedAt(small, ins, big string) bool {
 func c16Verdict(cs c16Case, t *harness.Trace) (fp, what string, nontrivial bool) {
 	call := LastCall(t)
 	if call.Outcome != "aborted" {
-		return "", "not judged (C01): " + call.Outcome, false
+		return "", "not judged (C01): " + call.Outcome + "@" + call.Site, false
 	}
 	// collect main-loop observations: state before each chunk; the last is after yank
 	var obs []*harness.Obs
@@ -266,6 +266,9 @@ func runC16(c *Ctx) {
 			switch {
 			case strings.HasPrefix(what, "not judged"):
 				c.Outcome(what)
+				if c.Outcomes[what] == 1 {
+					c.Sample(map[string]any{"not_judged": what, "case": cs.String(), "keys": ShowKeys(j.Calls[0])})
+				}
 			case non:
 				c.Outcome("ok/killed-and-restored")
 			default:
